@@ -169,7 +169,11 @@ func TestVerifC08Deliver(t *testing.T) {
 		cfg := &telemetry.UploadConfig{GOOS: []string{"linux"}, GOARCH: []string{"amd64"}, GoVersion: []string{"go1.22.1"},
 			SampleRate: rapid.SampledFrom([]float64{1, 0}).Draw(t, "sampleRate"),
 			Programs:   []*telemetry.ProgramConfig{{Name: "cmd/go", Versions: []string{"go1.22.1"}, Counters: []telemetry.CounterConfig{{Name: "a/b", Rate: 1}}}}}
-		vuSetMode(dir, "on 2000-01-01")
+		// the mode file may carry no date (files written by early versions): nothing is then known about the
+		// opt-in date and everything is uploadable, at the first attempt and at every retry
+		modeContent := rapid.SampledFrom([]string{"on 2000-01-01", "on 2000-01-01", "on", "on\n"}).Draw(t, "modeFile")
+		vuSetMode(dir, modeContent)
+		vstats.Label(fmt.Sprintf("undatedMode:%v", !strings.Contains(modeContent, "2000")))
 		os.MkdirAll(filepath.Join(dir, "upload"), 0777)
 		// 1-3 uploadable weeks, 1-3 files each; plus files that must be left alone
 		nweeks := rapid.IntRange(1, 3).Draw(t, "nweeks")
